@@ -20,8 +20,9 @@ import (
 // serialised and replayable, yet the detector regards them as unordered and reports any conflicting
 // pair of accesses between them regardless of wall-clock overlap.
 type Sched struct {
-	baton int32
-	wg    sync.WaitGroup
+	baton   int32
+	wg      sync.WaitGroup
+	Isolate bool // empty all sync.Pools before every step (see RunTasks)
 }
 
 //go:norace
@@ -67,6 +68,14 @@ func (s *Sched) RunTasks(scripts [][]func(), choose func(runnable []int) int) []
 		}
 		pick := runnable[choose(runnable)]
 		order = append(order, pick)
+		if s.Isolate {
+			// sync.Pool (used by fmt and others) carries race-detector happens-before edges from the goroutine that
+			// Puts an object to the one that Gets it; between serialised steps that would order the tasks and hide
+			// their races, and which task gets which pooled object is not decided by the tape. Two collections empty
+			// every pool (local caches -> victim caches -> dropped), so no step can inherit an object from another task.
+			runtime.GC()
+			runtime.GC()
+		}
 		s.give(int32(pick + 1))
 		s.waitFor(0)
 		left[pick]--
